@@ -416,8 +416,21 @@ RulesHold(rules, v) == rules = <<>> \/ \E i \in 1..Len(rules) : RuleSetHolds(rul
 
 MaskCase(m, v, cw, T) == [val |-> v, cw |-> cw, T |-> T, G |-> m.G, mode |-> m.mode, mc |-> m.mc, word |-> m.word]
 Maskable(b) == b.t \in {"s", "n"} /\ b.v # <<>>
-\* mask i looks at leaf b (lists, match rules on the leaf's own value; empty values are never processed)
-Active(ev, i, b) == Maskable(b) /\ Selected(ev, i, b.p) /\ RulesHold(ev.masks[i].rules, b.v)
+(* do_if of a mask: a condition on the EVENT (evaluated on the document as it arrives, once per event and
+   mask); the subset used by the driver: field equal one-of-values (a missing field equals nothing), not, or,
+   and.  A mask whose do_if does not hold for this event looks at none of its leaves.                     *)
+RECURSIVE CondHolds(_, _)
+CondHolds(ev, c) ==
+  CASE c.op = "equal" -> \E l \in 1..Len(ev.before) :
+                            /\ ev.before[l].p = c.field /\ ev.before[l].t = "s"
+                            /\ \E k \in 1..Len(c.vals) : c.vals[k] = ev.before[l].v
+    [] c.op = "not"   -> ~CondHolds(ev, c.args[1])
+    [] c.op = "or"    -> \E k \in 1..Len(c.args) : CondHolds(ev, c.args[k])
+    [] c.op = "and"   -> \A k \in 1..Len(c.args) : CondHolds(ev, c.args[k])
+DoIfHolds(ev, i) == ev.masks[i].doif = <<>> \/ CondHolds(ev, ev.masks[i].doif[1])
+\* mask i looks at leaf b (its do_if on this event, lists, match rules on the leaf's own value; empty values
+\* are never processed)
+Active(ev, i, b) == Maskable(b) /\ DoIfHolds(ev, i) /\ Selected(ev, i, b.p) /\ RulesHold(ev.masks[i].rules, b.v)
 Masking(m) == m.hasRe /\ m.G # <<>>
 \* what the second mask of a chain sees on leaf b
 Hit1(ev, b) == Active(ev, 1, b) /\ Masking(ev.masks[1]) /\ b.mi[1].Tb # <<>>
